@@ -9,6 +9,7 @@ import (
 	"os"
 	"os/exec"
 	"path/filepath"
+	"reflect"
 	"runtime"
 	"runtime/debug"
 	"sort"
@@ -306,7 +307,13 @@ func runVariant(repo string, spec *propertySpec, v variant, baseline map[string]
 		w.Server()
 	}
 	r := newReport(spec.ID)
+	ran := map[uintptr]bool{}
 	for _, rule := range spec.Rules {
+		if p := reflect.ValueOf(rule).Pointer(); ran[p] {
+			continue
+		} else {
+			ran[p] = true
+		}
 		resetFlatRoots()
 		rule(w, r)
 	}
